@@ -21,7 +21,7 @@ ProjApp(a) ==
     shregs |-> [i \in DOMAIN RegSet |-> ms[a].shregs[RegSet[i]]],
     arrs |-> [x \in 1..4 |-> [ex |-> ms[a].arrs[x - 1].ex, v |-> ms[a].arrs[x - 1].v]],
     sharrs |-> [x \in 1..4 |-> [ex |-> ms[a].sharrs[x - 1].ex, v |-> ms[a].sharrs[x - 1].v]],
-    um |-> ms[a].um, active |-> subs[a].active, pc |-> IF subs[a].active THEN ms[a].pc ELSE 0,
+    um |-> ms[a].um, active |-> subs[a].active, pc |-> IF subs[a].active /\ ~Stopping(a) THEN ms[a].pc ELSE 0,
     req |-> reqs[a].has ]
 Proj == [ apps |-> apps, used |-> used,
           app |-> [i \in 1..3 |-> IF AppSeq[i] \in apps THEN ProjApp(AppSeq[i]) ELSE [none |-> TRUE]],
@@ -52,6 +52,8 @@ ClearedOK(ev, u0, u1) ==
 TInit == Init /\ id \in DOMAIN Traces /\ k = 0 /\ verdict = "running"
 Act(ev) == CASE ev.a = "init"    -> InitApp(ev.app, ev.n)
              [] ev.a = "stop"    -> StopApp(ev.app)
+             [] ev.a = "stopbegin" -> StopBegin(ev.app)      \* the stop is suspended inside the reset of the first qubit it gives back
+             [] ev.a = "stopstep"  -> StopStep(ev.app)       \* ... resumed: the next qubit, or the end of the stop
              [] ev.a = "abort"   -> IF ev.outstanding THEN AbortOutstanding(ev.app) ELSE AbortApp(ev.app)
              [] ev.a = "zombie"  -> ev.app \notin apps /\ UNCHANGED vars      \* the rest of an orphaned subroutine changes nothing
              [] ev.a = "begin"   -> BeginSub(ev.app, ev.p)
